@@ -80,15 +80,21 @@ Cmp3(op, x, y, eps) ==
   ELSE LET S == CmpTolSet(op, x.v, y.v, eps)
        IN  IF S = BOOLEAN THEN "U" ELSE B3(TRUE \in S)
 
+\* Known deviation "ForallPreDropped": a universally quantified *condition* is
+\* never grounded by the library, i.e. it is dropped from the connective it is
+\* a member of (so it counts as the neutral element of that connective).
+Members(f, dv) ==
+  IF "ForallPreDropped" \in dv THEN {i \in DOMAIN f.fs : f.fs[i].k # "forall"} ELSE DOMAIN f.fs
+
 RECURSIVE Holds3(_, _, _, _, _, _)
 Holds3(f, env, st, u, eps, dv) ==
   CASE f.k = "atom"   -> B3(<<f.p, Args(f.a, env)>> \in st.facts)
     [] f.k = "not"    -> Not3(Holds3(f.f, env, st, u, eps, dv))
     [] f.k = "eq"     -> B3(Tm(f.l, env) = Tm(f.r, env))
-    [] f.k = "and"    -> AndSet({Holds3(f.fs[i], env, st, u, eps, dv) : i \in DOMAIN f.fs})
-    [] f.k = "or"     -> OrSet({Holds3(f.fs[i], env, st, u, eps, dv) : i \in DOMAIN f.fs})
+    [] f.k = "and"    -> AndSet({Holds3(f.fs[i], env, st, u, eps, dv) : i \in Members(f, dv)})
+    [] f.k = "or"     -> OrSet({Holds3(f.fs[i], env, st, u, eps, dv) : i \in Members(f, dv)})
     [] f.k = "imply"  -> OrSet({Not3(Holds3(f.l, env, st, u, eps, dv)), Holds3(f.r, env, st, u, eps, dv)})
-    [] f.k = "forall" -> IF "ForallPreTrue" \in dv THEN "T"
+    [] f.k = "forall" -> IF "ForallPreDropped" \in dv THEN "T"
                          ELSE AndSet({Holds3(f.f, Bind(env, f.v, o), st, u, eps, dv) : o \in ObjsOf(u, f.t)})
     [] f.k = "exists" -> OrSet({Holds3(f.f, Bind(env, f.v, o), st, u, eps, dv) : o \in ObjsOf(u, f.t)})
     [] f.k = "cmp"    -> Cmp3(f.op, Eval(f.l, env, st), Eval(f.r, env, st), eps)
